@@ -155,7 +155,8 @@ Inductive eop :=
 | EWrite (e out : nat)
 | ETrack (e t : nat)
 | EInval (d : nat)
-| EReset.
+| EReset
+| ERemove (e : nat).
 
 Record erec := mkE { er_key : nat; er_dialer : nat; er_alive : bool; er_retired : bool; er_sent : bool;
                      er_owner : nat; er_tuples : list nat }.
@@ -234,6 +235,16 @@ Definition estep (s : espec) (o : eop) : espec * eres :=
       let fix idx (n : nat) (l : list erec) := match l with [] => [] | x :: r => (n, x) :: idx (S n) r end in
       (mkES (fun _ => CNone) (map (fun ix => if incur ix then e_close (snd ix) else snd ix) (idx 0 (es_eps s))) (es_dials s),
        mkER None false 0)
+  | ERemove e =>
+      (* a caller drops its handle: if it is still the live endpoint of its key the endpoint is closed and
+         leaves the pool; a stale handle (already retired / closed / replaced) changes nothing *)
+      match nth_error (es_eps s) e with
+      | Some x =>
+          if er_alive x
+          then (mkES (clear_cur_of s e) (lupd (es_eps s) e e_close) (es_dials s), mkER None false 0)
+          else (s, mkER None false 0)
+      | None => (s, mkER None false 0)
+      end
   end.
 
 (* what must be observable after a call *)
